@@ -1,1 +1,270 @@
-From BSpl Require Import Scalar.
+(* Properties_C20.v — C20: the shipped example solvers are well-defined programs and solve their problems.
+   Statements only: every theorem is closed by [exact <lemma>] and followed by
+   Print Assumptions.  The statements quantify over every scalar structure
+   (F, K : Ops F) that satisfies the ordered-field laws (Laws K), and over all
+   grids, windows, orders, coefficient values, expressions etc. named in them.
+   PARTIAL: theorems about the MODEL of the solver skeletons (Examples.v: knot set-up, basis
+   generation, std::vector front/back/erase/pop_back and indexed access to the eigen solver's output
+   in the checked-container reading, assembly with the library's forms, construction of the returned
+   splines).  Eigen's dense solvers are arbitrary functions of the right result size.  ORDER is
+   SPLINE_ORDER (10 in the shipped code; any ORDER >= 1 here).  Not proved: the straight line for a
+   constant coefficient, the numerical spectra of the harmonic oscillator and hydrogen examples
+   (floating-point eigen decompositions) - validated with tolerances by the check. *)
+From Coq Require Import List NArith ZArith Arith Bool.
+From BSpl Require Import Scalar Outcome Support Poly Spline Ops Forms Generator Interp Spec Spec_Ops Spec_Gen Proofs_Support Proofs_Scalar Proofs_Poly Proofs_Binom Proofs_Eval Proofs_Outcome Proofs_Spline Proofs_Forms Proofs_Ops Proofs_Forms2 Proofs_Interp Proofs_Pred Proofs_Gen Instances Instances_Ext Proofs_Valid Solver Pool Quad Proofs_Pool Proofs_Quad Proofs_Sites Proofs_Rounded Proofs_Threads Proofs_Updates Examples Proofs_Examples.
+Import ListNotations.
+
+
+Theorem C20_diffusion_no_ub :
+    forall (F : Type) (K : Ops F),
+           Laws K ->
+           forall (ORDER : nat) (solve : list (list F) -> list F -> list F) (d : spline F) (a b : F),
+           SplInv d ->
+           nintervals (ssup d) <> 0%N ->
+           1 <= ORDER ->
+           sstart (ssup d) = 0%N /\ sstop (ssup d) = nlen (sgridp d) ->
+           (forall (m : list (list F)) (r : list F), length (solve m r) = length r) ->
+           N.to_nat (sstop (ssup d) - sstart (ssup d)) + ORDER >= 4 ->
+           exists r : spline F,
+             diffusion ORDER solve d a b = Ok r /\ SplInv r /\ sgridp r = sgridp d /\ sord r = ORDER.
+Proof. exact (@Proofs_Examples.diffusion_no_ub). Qed.
+
+Theorem C20_diffusion_basis :
+    forall (F : Type) (K : Ops F),
+           Laws K ->
+           forall (ORDER : nat) (d : spline F),
+           SplInv d ->
+           nintervals (ssup d) <> 0%N ->
+           1 <= ORDER ->
+           sstart (ssup d) = 0%N /\ sstop (ssup d) = nlen (sgridp d) ->
+           exists basis : list (spline F),
+             diff_basis ORDER (ssup d) = Ok basis /\
+             length basis = N.to_nat (sstop (ssup d) - sstart (ssup d)) + ORDER - 1 /\
+             Forall SplInv basis /\ Forall (fun s : spline F => sgridp s = sgridp d /\ sord s = ORDER) basis.
+Proof. exact (@Proofs_Examples.diff_basis_count). Qed.
+
+Theorem C20_diffusion_system_shape :
+    forall (F : Type) (K : Ops F),
+           Laws K ->
+           forall (ORDER : nat) (d : spline F) (a b : F),
+           SplInv d ->
+           nintervals (ssup d) <> 0%N ->
+           1 <= ORDER ->
+           sstart (ssup d) = 0%N /\ sstop (ssup d) = nlen (sgridp d) ->
+           exists (basis : list (spline F)) (sys : diff_system),
+             diff_basis ORDER (ssup d) = Ok basis /\
+             diffusion_system ORDER d a b = Ok sys /\
+             length (ds_inner sys) = length basis - 2 /\
+             length (ds_inner sys) = N.to_nat (sstop (ssup d) - sstart (ssup d)) + ORDER - 3 /\
+             length (ds_mat sys) = length (ds_inner sys) /\
+             Forall (fun row : list F => length row = length (ds_inner sys)) (ds_mat sys) /\
+             length (ds_rhs sys) = length (ds_inner sys) /\
+             SplInv (ds_first sys) /\
+             SplInv (ds_last sys) /\
+             Forall SplInv (ds_inner sys) /\
+             Forall (fun s : spline F => sgridp s = sgridp d /\ sord s = ORDER)
+               (ds_first sys :: ds_last sys :: ds_inner sys).
+Proof. exact (@Proofs_Examples.diffusion_system_ok). Qed.
+
+Theorem C20_diffusion_subwindow_refused :
+    forall (F : Type) (K : Ops F),
+           Laws K ->
+           forall (ORDER : nat) (s : support F),
+           SInv s ->
+           GInv (sgrid s) ->
+           nintervals s <> 0%N ->
+           ~ (sstart s = 0%N /\ sstop s = nlen (sgrid s)) -> diff_basis ORDER s = Throw INCONSISTENT_DATA.
+Proof. exact (@Proofs_Examples.diff_basis_window_refused). Qed.
+
+Theorem C20_diffusion_too_small :
+    forall (F : Type) (K : Ops F),
+           Laws K ->
+           forall (ORDER : nat) (solve : list (list F) -> list F -> list F) (d : spline F) (a b : F),
+           SplInv d ->
+           nintervals (ssup d) <> 0%N ->
+           1 <= ORDER ->
+           sstart (ssup d) = 0%N /\ sstop (ssup d) = nlen (sgridp d) ->
+           (forall (m : list (list F)) (r : list F), length (solve m r) = length r) ->
+           N.to_nat (sstop (ssup d) - sstart (ssup d)) + ORDER < 4 ->
+           diffusion ORDER solve d a b = Throw MISSING_DATA.
+Proof. exact (@Proofs_Examples.diffusion_too_small). Qed.
+
+Theorem C20_diffusion_end_values :
+    forall (F : Type) (K : Ops F),
+           Laws K ->
+           forall (ORDER : nat) (solve : list (list F) -> list F -> list F) (d : spline F) 
+             (a b : F) (r : spline F),
+           SplInv d ->
+           nintervals (ssup d) <> 0%N ->
+           1 <= ORDER ->
+           sstart (ssup d) = 0%N /\ sstop (ssup d) = nlen (sgridp d) ->
+           (forall (m : list (list F)) (rhs : list F), length (solve m rhs) = length rhs) ->
+           diffusion ORDER solve d a b = Ok r ->
+           spl_eval r (gnth (sgridp d) 0) = Ok a /\ spl_eval r (gnth (sgridp d) (nlen (sgridp d) - 1)) = Ok b.
+Proof. exact (@Proofs_Examples.diffusion_end_values). Qed.
+
+Theorem C20_diffusion_scale :
+    forall (F : Type) (K : Ops F),
+           Laws K ->
+           forall (ORDER : nat) (d : spline F) (lam a b : F) (sys : diff_system),
+           SplInv d ->
+           nintervals (ssup d) <> 0%N ->
+           1 <= ORDER ->
+           sstart (ssup d) = 0%N /\ sstop (ssup d) = nlen (sgridp d) ->
+           diffusion_system ORDER d a b = Ok sys ->
+           exists sys' : diff_system,
+             diffusion_system ORDER (spl_scale d lam) a b = Ok sys' /\
+             ds_inner sys' = ds_inner sys /\
+             ds_first sys' = ds_first sys /\
+             ds_last sys' = ds_last sys /\
+             ds_mat sys' = map (map (fun x : F => (x * lam)%F)) (ds_mat sys) /\
+             ds_rhs sys' = map (fun x : F => (x * lam)%F) (ds_rhs sys).
+Proof. exact (@Proofs_Examples.diffusion_scale). Qed.
+
+Theorem C20_diffusion_scale_solution :
+    forall (F : Type) (K : Ops F),
+           Laws K ->
+           forall (ORDER : nat) (d : spline F) (lam a b : F) (sys sys' : diff_system) (c : list F),
+           SplInv d ->
+           nintervals (ssup d) <> 0%N ->
+           1 <= ORDER ->
+           sstart (ssup d) = 0%N /\ sstop (ssup d) = nlen (sgridp d) ->
+           lam <> f0 ->
+           diffusion_system ORDER d a b = Ok sys ->
+           diffusion_system ORDER (spl_scale d lam) a b = Ok sys' ->
+           mat_apply (ds_mat sys) c = ds_rhs sys <-> mat_apply (ds_mat sys') c = ds_rhs sys'.
+Proof. exact (@Proofs_Examples.diffusion_scale_solution). Qed.
+
+Theorem C20_diffusion_scale_invariant :
+    forall (F : Type) (K : Ops F),
+           Laws K ->
+           forall (ORDER : nat) (solve : list (list F) -> list F -> list F) (d : spline F) (lam a b : F),
+           SplInv d ->
+           nintervals (ssup d) <> 0%N ->
+           1 <= ORDER ->
+           sstart (ssup d) = 0%N /\ sstop (ssup d) = nlen (sgridp d) ->
+           (forall (m : list (list F)) (r : list F),
+            solve (map (map (fun x : F => (x * lam)%F)) m) (map (fun x : F => (x * lam)%F) r) = solve m r) ->
+           diffusion ORDER solve (spl_scale d lam) a b = diffusion ORDER solve d a b.
+Proof. exact (@Proofs_Examples.diffusion_scale_invariant). Qed.
+
+Theorem C20_potential_no_ub :
+    forall (F : Type) (K : Ops F),
+           Laws K ->
+           forall (ORDER : nat) (eigs : list (list F) -> list (list F) -> list (F * list F)) (v : spline F),
+           SplInv v ->
+           eigs_sized eigs ->
+           match potential_solve ORDER eigs v with
+           | Throw BadOptionalAccess | Throw StdOutOfRange | UB _ => False
+           | _ => True
+           end.
+Proof. exact (@Proofs_Examples.potential_no_ub). Qed.
+
+Theorem C20_potential_count :
+    forall (F : Type) (K : Ops F),
+           Laws K ->
+           forall (ORDER : nat) (eigs : list (list F) -> list (list F) -> list (F * list F)) (v : spline F),
+           SplInv v ->
+           eigs_sized eigs ->
+           (N.of_nat ORDER + 1 <= nlen (sgridp v))%N ->
+           exists l : list (F * spline F),
+             potential_solve ORDER eigs v = Ok l /\
+             length l = Nat.min 10 (N.to_nat (nlen (sgridp v)) - ORDER - 1) /\
+             Forall (fun p : F * spline F => SplInv (snd p) /\ sgridp (snd p) = sgridp v /\ sord (snd p) = ORDER)
+               l.
+Proof. exact (@Proofs_Examples.potential_count). Qed.
+
+Theorem C20_potential_few_grid_points :
+    forall (F : Type) (K : Ops F),
+           Laws K ->
+           forall (ORDER : nat) (eigs : list (list F) -> list (list F) -> list (F * list F)) (v : spline F),
+           SplInv v ->
+           (nlen (sgridp v) < N.of_nat ORDER + 1)%N -> potential_solve ORDER eigs v = Throw UNDETERMINED.
+Proof. exact (@Proofs_Examples.potential_few). Qed.
+
+Theorem C20_potential_shift :
+    forall (F : Type) (K : Ops F),
+           Laws K ->
+           forall (ORDER : nat) (v v' : spline F) (c : F) (basis : list (spline F)) (h s : list (list F)),
+           SplInv v ->
+           SplInv v' ->
+           ssup v' = ssup v ->
+           sstart (ssup v) = 0%N /\ sstop (ssup v) = nlen (sgridp v) ->
+           (forall (k : N) (u : F), imem k (ssup v) -> peval (piece v' k) u = (peval (piece v k) u + c)%F) ->
+           pot_matrices ORDER v = Ok (basis, h, s) ->
+           exists h' : list (list F),
+             pot_matrices ORDER v' = Ok (basis, h', s) /\
+             length h' = length basis /\
+             Forall (fun row : list F => length row = length basis) h' /\
+             (forall i j : nat, nth j (nth i h' []) f0 = (nth j (nth i h []) f0 + c * nth j (nth i s []) f0)%F).
+Proof. exact (@Proofs_Examples.potential_shift). Qed.
+
+Theorem C20_potential_shift_eigen :
+    forall (F : Type) (K : Ops F),
+           Laws K ->
+           forall (ORDER : nat) (v v' : spline F) (c : F) (basis : list (spline F)) (h s h' : list (list F))
+             (x : list F) (lam : F),
+           SplInv v ->
+           SplInv v' ->
+           ssup v' = ssup v ->
+           sstart (ssup v) = 0%N /\ sstop (ssup v) = nlen (sgridp v) ->
+           (forall (k : N) (u : F), imem k (ssup v) -> peval (piece v' k) u = (peval (piece v k) u + c)%F) ->
+           pot_matrices ORDER v = Ok (basis, h, s) ->
+           pot_matrices ORDER v' = Ok (basis, h', s) ->
+           mat_apply h x = map (fun y : F => (lam * y)%F) (mat_apply s x) ->
+           mat_apply h' x = map (fun y : F => ((lam + c) * y)%F) (mat_apply s x).
+Proof. exact (@Proofs_Examples.potential_shift_eigen). Qed.
+
+Theorem C20_potential_shift_constant :
+    forall (F : Type) (K : Ops F),
+           Laws K ->
+           forall (ORDER : nat) (v : spline F) (c : F) (basis : list (spline F)) (h s : list (list F)),
+           SplInv v ->
+           sstart (ssup v) = 0%N /\ sstop (ssup v) = nlen (sgridp v) ->
+           pot_matrices ORDER v = Ok (basis, h, s) ->
+           exists h' : list (list F),
+             pot_matrices ORDER (spl_shift v c) = Ok (basis, h', s) /\
+             (forall i j : nat, nth j (nth i h' []) f0 = (nth j (nth i h []) f0 + c * nth j (nth i s []) f0)%F).
+Proof. exact (@Proofs_Examples.potential_shift_const). Qed.
+
+Theorem C20_old_loop_reads_out_of_range :
+    forall (F : Type) (K : Ops F),
+           Laws K ->
+           forall (ORDER : nat) (eigs : list (list F) -> list (list F) -> list (F * list F)) (v : spline F),
+           SplInv v ->
+           eigs_sized eigs ->
+           (N.of_nat ORDER + 1 <= nlen (sgridp v))%N ->
+           N.to_nat (nlen (sgridp v)) - ORDER - 1 < 10 -> potential_solve_old ORDER eigs v = UB OOBRead.
+Proof. exact (@Proofs_Examples.old_loop_reads_out_of_range). Qed.
+
+Theorem C20_clamped_first :
+    forall (F : Type) (K : Ops F),
+           Laws K -> forall (ORDER : nat) (g : list F), GInv g -> Bk (knots_of ORDER g) ORDER 0 0 (gnth g 0) = f1.
+Proof. exact (@Proofs_Examples.clamped_first). Qed.
+
+Theorem C20_clamped_last :
+    forall (F : Type) (K : Ops F),
+           Laws K ->
+           forall (ORDER : nat) (g : list F),
+           GInv g -> Bk (knots_of ORDER g) ORDER (length g + ORDER - 2) (length g - 2) (gnth g (nlen g - 1)) = f1.
+Proof. exact (@Proofs_Examples.clamped_last). Qed.
+
+
+Print Assumptions C20_diffusion_no_ub.
+Print Assumptions C20_diffusion_basis.
+Print Assumptions C20_diffusion_system_shape.
+Print Assumptions C20_diffusion_subwindow_refused.
+Print Assumptions C20_diffusion_too_small.
+Print Assumptions C20_diffusion_end_values.
+Print Assumptions C20_diffusion_scale.
+Print Assumptions C20_diffusion_scale_solution.
+Print Assumptions C20_diffusion_scale_invariant.
+Print Assumptions C20_potential_no_ub.
+Print Assumptions C20_potential_count.
+Print Assumptions C20_potential_few_grid_points.
+Print Assumptions C20_potential_shift.
+Print Assumptions C20_potential_shift_eigen.
+Print Assumptions C20_potential_shift_constant.
+Print Assumptions C20_old_loop_reads_out_of_range.
+Print Assumptions C20_clamped_first.
+Print Assumptions C20_clamped_last.
